@@ -100,7 +100,9 @@ def name(rng, printable=False, lo=1, hi=12):
 
 
 def address(rng):
-    return rng.choice([0, 0xFF, 0x100, 0x7FFF, 0x8000, 0xFFFF, 0x0E00, 0x3F00, rng.below(65536), rng.below(65536)])
+    # includes values whose bytes look like tape markers ($55 $3C $00 $01 $FF): header fields are data too
+    return rng.choice([0, 0xFF, 0x100, 0x7FFF, 0x8000, 0xFFFF, 0x0E00, 0x3F00, rng.below(65536), rng.below(65536),
+                       rng.choice([0x553C, 0x3C55, 0x5555, 0x3C00, 0x0055, 0x3CFF, 0x5501, 0x013C])])
 
 
 def file_desc(rng, medium, big_ok=True, ml_only=False, unique=None, max_granules=6):
